@@ -111,6 +111,21 @@ func produceHistory(a *Node, rng *rand.Rand, out *Out, steps int) {
 					Data: definition.ABIPillars.PackMethodPanic(definition.DelegateMethodName, name)})
 				out.Count("history:delegate")
 			case 5:
+				if rng.Intn(4) == 0 {
+					// every backer of one pillar leaves it: an active pillar with delegated weight exactly zero (its entry in
+					// a stored election has an empty weight; a restarted receiver reads it back from its consensus DB)
+					name := []string{g.Pillar1Name, g.Pillar2Name, g.Pillar3Name}[rng.Intn(3)]
+					if dl, err := definition.GetDelegationsList(a.Ch.GetFrontierAccountStore(types.PillarContract).Storage()); err == nil {
+						for _, d := range dl {
+							if kp := KeyOf(d.Backer); kp != nil && d.Name == name {
+								safeSend(a, &nom.AccountBlock{Address: kp.Address, ToAddress: types.PillarContract,
+									Data: definition.ABIPillars.PackMethodPanic(definition.UndelegateMethodName)})
+							}
+						}
+						out.Count("history:pillar-drained-of-all-backers")
+					}
+					break
+				}
 				safeSend(a, &nom.AccountBlock{Address: u.Address, ToAddress: types.PillarContract,
 					Data: definition.ABIPillars.PackMethodPanic(definition.UndelegateMethodName)})
 				out.Count("history:undelegate")
@@ -139,6 +154,20 @@ func produceHistory(a *Node, rng *rand.Rand, out *Out, steps int) {
 					}
 				}
 			}
+		}
+		// a burst: one account publishes more blocks than a momentum takes (MaxAccountBlocksInMomentum = 100), so the tail
+		// of the burst is confirmed one momentum later than its predecessor although it acknowledges an older momentum
+		if rng.Intn(14) == 0 {
+			u := users[rng.Intn(len(users))]
+			to := users[rng.Intn(len(users))]
+			n := 101 + rng.Intn(8)
+			for k := 0; k < n; k++ {
+				if safeSend(a, &nom.AccountBlock{Address: u.Address, ToAddress: to.Address, TokenStandard: types.ZnnTokenStandard,
+					Amount: big.NewInt(int64(1 + k))}) == nil {
+					break
+				}
+			}
+			out.Count("history:burst-of-more-blocks-than-a-momentum-takes")
 		}
 		// the mock's own producer also generates contract receives and updates right away; the plain producer does not,
 		// so calls stay unreceived for a while and are then executed against the (older) momentum that confirmed them
@@ -444,8 +473,11 @@ func replayHistory(rng *rand.Rand, out *Out, first bool) {
 		i, b := e.i, e.b
 		r := &receiver{b: OpenBare(""), allOk: true}
 		ackIdx := int(b.MomentumAcknowledged.Height) - 2
-		if _, err := r.deliver(chainD, 0, ackIdx+1); err != nil {
-			panic(err)
+		if idx, err := r.deliver(chainD, 0, ackIdx+1); err != nil {
+			// a fresh node refuses a prefix of the producer's own chain
+			out.Oracle(false, "producer-momentum-accepted", M{"schedule": "early-gossip-prefix", "index": idx, "height": idx + 2, "err": err.Error()})
+			r.b.Destroy()
+			continue
 		}
 		kind := "user"
 		if types.IsEmbeddedAddress(b.Address) {
